@@ -71,10 +71,8 @@ TokenDigest(cid, hash, ep, nonce8) == SHA256(TokenMsg(cid, hash, ep, nonce8))
 LOCAL LZ8(b) == CHOOSE k \in 0..7 : P2[8 - k] <= b /\ b < P2[9 - k]
 \* number of zero bits before the first one bit of the byte string, all bits if there is none
 LeadingZeroBits(dig) ==
-   LET nz == {i \in 1..Len(dig) : dig[i] # 0}
-   IN IF nz = {} THEN 8 * Len(dig)
-      ELSE LET i == CHOOSE j \in nz : \A k \in nz : j <= k
-           IN 8 * (i - 1) + LZ8(dig[i])
+   LET i == SelectInSeq(dig, LAMBDA b : b # 0)       \* index of the first non-zero byte, 0 if there is none
+   IN IF i = 0 THEN 8 * Len(dig) ELSE 8 * (i - 1) + LZ8(dig[i])
 
 Accept(dig, bits) == LeadingZeroBits(dig) >= bits
 AcceptCapped(dig, bits) == Accept(dig, IF bits > PowCap THEN PowCap ELSE bits)
